@@ -120,11 +120,11 @@ Record runres := { rr_res : option presult;        (* None: out of fuel *)
 Fixpoint prun (prof : profile) (fuel : nat) (s : pstate) (l : list atom) (t : tail)
          (pend : N) (tr : list event) : runres :=
   match fuel with
-  | O => {| rr_res := None; rr_state := s; rr_rest := l; rr_pend := pend; rr_trace := rev tr |}
+  | O => {| rr_res := None; rr_state := s; rr_rest := l; rr_pend := pend; rr_trace := rev' tr |}
   | S f =>
     match pstep prof s l t with
     | Finished r s' rest ev =>
-      {| rr_res := Some r; rr_state := s'; rr_rest := rest; rr_pend := pend; rr_trace := rev (ev :: tr) |}
+      {| rr_res := Some r; rr_state := s'; rr_rest := rest; rr_pend := pend; rr_trace := rev' (ev :: tr) |}
     | Continue s' rest p ev =>
       prun prof f s' rest t (if p then pend + 1 else pend) (ev :: tr)
     end
